@@ -69,10 +69,25 @@ def quoteText (s : String) : String :=
 def plainIdent (cc : Lex.CharClass) (name : String) : Bool :=
   Lex.lex cc name.toList == [.ident name, .eof] && !name.startsWith ">"
 
+/-- a name that is itself an attribute word is written as an attribute followed by the rest of
+the name (`international` = `int` + `ernational`), the way the parser builds such a name -/
+def attrText (plain : String → Bool) (name : String) : String :=
+  let words := ["int", "UKSJJ", "UKB", "UKC", "UKK", "british", "survey", "irish", "aust", "roman", "egyptian", "greek", "olympic"]
+  let split := words.findSome? fun w =>
+    match attrFromName w with
+    | some attr => if name.startsWith attr then some (w, (name.drop attr.length).toString) else none
+    | none => none
+  match split with
+  | some (w, rest) => w ++ " " ++ (if rest.isEmpty then "\"\"" else identText plain rest)
+  | none => identText plain name
+
 mutual
 /-- `recurse(expr, fmt, prec)` -/
 def display (sz : Nat → Nat → Nat) (plain : String → Bool) : Expr → Prec → String
-  | .unit name, _ => if name == "of" then "(of)" else identText plain name
+  | .unit name, _ =>
+    if name == "of" then "(of)"
+    else if (attrFromName name).isSome then attrText plain name
+    else identText plain name
   | .quote s, _ => quoteText s
   | .const v, _ => constText sz v
   | .date _, _ => "NYI: date expr Display"
